@@ -70,8 +70,10 @@ def cases(tier, seed):
         for seq in pick:
             yield {"family": fam, "seq": list(seq), "mseed": rnd.randrange(1000)}
         # other numerical settings at one call / a training step with part of the model frozen or under other settings
-        for new in ("pred_jitter", "train_step_frozen", "train_step_jitter"):
+        for new in ("pred_jitter", "train_step_frozen", "train_step_jitter", "pred_loose"):
             if fam == "batch_nan" and new == "pred_jitter":
+                continue
+            if new == "pred_loose" and fam in VAR_FAMS:
                 continue
             ext = [[new], [new, "pred"], ["pred", new, "pred"], [new, "train_eval", "pred"], [new, "load_sd_same", "pred"], ["pred", "train_step", new, "pred"]]
             if tier != "quick":
@@ -216,4 +218,10 @@ def _ski_dyn_eager(case, fl):
     return case["family"] == "ski_dynamic_grid" and "pred_eager" in (fl.get("prefix") or [])
 
 
-MATCHERS = {"C03-sgpr-eager-kernel-evaluation": _sgpr_eager, "C03-ski-dynamic-grid-eager": _ski_dyn_eager}
+def _loose_caches(case, fl):
+    """exact-GP prediction caches are not keyed by the numerical settings (CG tolerance, Cholesky size threshold, Lanczos rank)
+    they were computed under: a history with a rough prediction (pred_loose) and predictions under other settings"""
+    return case["family"] not in VAR_FAMS and "pred_loose" in (fl.get("prefix") or [])
+
+
+MATCHERS = {"C03-sgpr-eager-kernel-evaluation": _sgpr_eager, "C03-ski-dynamic-grid-eager": _ski_dyn_eager, "C03-exact-caches-ignore-numerical-settings": _loose_caches}
